@@ -22,8 +22,16 @@ import (
 )
 
 // corruptCase: XOR the bit pattern (bit 0 of Pattern = first bit of the run,
-// Length bits long, first and last bit set) into File starting at bit BitPos
-// (bit 0 = most significant bit of byte 0).
+// Length bits long, first and last bit set) into File starting at bit BitPos.
+// Bits are numbered in the order CRC-16/ARC (a reflected CRC) and a serial link
+// process them: bit 0 is the LEAST significant bit of byte 0, bit 8 the least
+// significant bit of byte 1. Only in this order is a "run of contiguous bits"
+// a burst in the sense of the CRC burst-detection theorem; a run that is
+// contiguous in most-significant-bit-first numbering and crosses two byte
+// boundaries spreads over up to 24 positions of the CRC's bit stream and may
+// legitimately go undetected (probability 2^-16; observed once at seed 3 with
+// the first version of this check, which numbered bits the other way - a
+// false alarm of the check, corrected here).
 type corruptCase struct {
 	File    string `json:"file_hex"`
 	BitPos  int    `json:"bit_pos"`
@@ -36,7 +44,7 @@ func applyBurst(dst, src []byte, bitPos, length int, pattern uint32) {
 	for i := 0; i < length; i++ {
 		if pattern>>uint(i)&1 == 1 {
 			p := bitPos + i
-			dst[p/8] ^= 0x80 >> uint(p%8)
+			dst[p/8] ^= 0x01 << uint(p%8)
 		}
 	}
 }
@@ -248,7 +256,7 @@ func enumerate(rec *hx.Recorder, b []byte, all bool, regions map[string]int64) (
 					var pat uint32
 					first, last := -1, -1
 					for i := 0; i < w*8; i++ {
-						by, bit := o+i/8, uint(7-i%8)
+						by, bit := o+i/8, uint(i%8)
 						if (b[by]^buf[by])>>bit&1 == 1 {
 							if first < 0 {
 								first = i
@@ -257,7 +265,7 @@ func enumerate(rec *hx.Recorder, b []byte, all bool, regions map[string]int64) (
 						}
 					}
 					for i := first; i <= last; i++ {
-						by, bit := o+i/8, uint(7-i%8)
+						by, bit := o+i/8, uint(i%8)
 						if (b[by]^buf[by])>>bit&1 == 1 {
 							pat |= 1 << uint(i-first)
 						}
